@@ -160,12 +160,16 @@ impl<T: Copy> ReadStream<T> {
 
     #[must_use]
     pub fn wait_for_read(&self, need: usize) -> bool {
+        #[cfg(feature = "verif")]
+        use crate::verif::HookedArc as Arc;
         self.circ.wait_for_read(need) < need && Arc::strong_count(&self.circ) == 1
     }
 
     /// Return true if there is nothing more ever to read from the stream.
     #[must_use]
     pub fn eof(&self) -> bool {
+        #[cfg(feature = "verif")]
+        use crate::verif::HookedArc as Arc;
         // Fast path.
         let refcount = Arc::strong_count(&self.circ);
         if refcount != 1 {
@@ -181,6 +185,8 @@ impl<T: Copy> ReadStream<T> {
 
     #[must_use]
     pub(crate) fn refcount(&self) -> usize {
+        #[cfg(feature = "verif")]
+        use crate::verif::HookedArc as Arc;
         Arc::strong_count(&self.circ)
     }
 }
@@ -233,11 +239,15 @@ impl<T: Copy> WriteStream<T> {
 
     #[must_use]
     pub fn wait_for_write(&self, need: usize) -> bool {
+        #[cfg(feature = "verif")]
+        use crate::verif::HookedArc as Arc;
         self.circ.wait_for_write(need) < need && Arc::strong_count(&self.circ) == 1
     }
 
     #[must_use]
     pub(crate) fn refcount(&self) -> usize {
+        #[cfg(feature = "verif")]
+        use crate::verif::HookedArc as Arc;
         Arc::strong_count(&self.circ)
     }
 }
@@ -261,6 +271,8 @@ pub struct NCReadStream<T> {
 
 impl<T> StreamWait for NCReadStream<T> {
     fn wait(&self, need: usize) -> bool {
+        #[cfg(feature = "verif")]
+        self.verif_yield(crate::verif::Site::NcWait);
         let (lock, cv) = &*self.q;
         let l = cv
             .wait_timeout_while(
@@ -272,17 +284,23 @@ impl<T> StreamWait for NCReadStream<T> {
         l.0.len() < need && Arc::strong_count(&self.q) == 1
     }
     fn closed(&self) -> bool {
+        #[cfg(feature = "verif")]
+        use crate::verif::HookedArc as Arc;
         Arc::strong_count(&self.q) == 1
     }
 }
 
 impl<T> StreamWait for NCWriteStream<T> {
     fn wait(&self, _need: usize) -> bool {
+        #[cfg(feature = "verif")]
+        use crate::verif::HookedArc as Arc;
         // TODO: we should have a maximum, shouldn't we?
         // For now, as much room as you need.
         Arc::strong_count(&self.q) == 1
     }
     fn closed(&self) -> bool {
+        #[cfg(feature = "verif")]
+        use crate::verif::HookedArc as Arc;
         Arc::strong_count(&self.q) == 1
     }
 }
@@ -307,9 +325,16 @@ impl<T> NCReadStream<T> {
     /// Ideally this should only be NoCopy.
     #[must_use]
     pub fn pop(&self) -> Option<(T, Vec<Tag>)> {
+        #[cfg(feature = "verif")]
+        self.verif_yield(crate::verif::Site::NcPop);
         let (lock, cv) = &*self.q;
         // TODO: attach tags.
         let ret = lock.lock().unwrap().pop_front().map(|v| (v, Vec::new()));
+        #[cfg(feature = "verif")]
+        crate::verif::emit(crate::verif::Ev::NcPopped {
+            addr: self.verif_id(),
+            got: ret.is_some(),
+        });
         cv.notify_all();
         ret
     }
@@ -317,6 +342,10 @@ impl<T> NCReadStream<T> {
     /// Return true if there is nothing more ever to read from the stream.
     #[must_use]
     pub fn eof(&self) -> bool {
+        #[cfg(feature = "verif")]
+        self.verif_yield(crate::verif::Site::NcEof);
+        #[cfg(feature = "verif")]
+        use crate::verif::HookedArc as Arc;
         if !self.q.0.lock().unwrap().is_empty() {
             false
         } else {
@@ -331,9 +360,15 @@ impl<T> NCWriteStream<T> {
     ///
     /// TODO: Actually store the tags.
     pub fn push(&self, val: T, _tags: &[Tag]) {
+        #[cfg(feature = "verif")]
+        crate::verif::yield_point(crate::verif::Site::NcPush, 0, self.verif_id());
         let (lock, cv) = &*self.q;
         // TODO: attach tags.
         lock.lock().unwrap().push_back(val);
+        #[cfg(feature = "verif")]
+        crate::verif::emit(crate::verif::Ev::NcPushed {
+            addr: self.verif_id(),
+        });
         cv.notify_all();
     }
 }
@@ -342,5 +377,68 @@ impl<T: Len> NCReadStream<T> {
     /// Get the size of the front packet.
     pub fn peek_size(&self) -> Option<usize> {
         self.q.0.lock().unwrap().front().map(|e| e.len())
+    }
+}
+
+/// Verification hooks: stream identity and handle counts.
+#[cfg(feature = "verif")]
+mod verif_hooks {
+    use super::*;
+
+    impl<T> ReadStream<T> {
+        /// Identity of the underlying buffer in hook events.
+        #[must_use]
+        pub fn verif_id(&self) -> usize {
+            self.circ.verif_id()
+        }
+        /// Number of handles (stream ends and live windows) on the buffer.
+        #[must_use]
+        pub fn verif_handles(&self) -> usize {
+            Arc::strong_count(&self.circ)
+        }
+        /// Base address and mapped length of the buffer.
+        #[must_use]
+        pub fn verif_raw(&self) -> (*mut u8, usize) {
+            self.circ.verif_raw()
+        }
+    }
+    impl<T> WriteStream<T> {
+        /// Identity of the underlying buffer in hook events.
+        #[must_use]
+        pub fn verif_id(&self) -> usize {
+            self.circ.verif_id()
+        }
+        /// Number of handles (stream ends and live windows) on the buffer.
+        #[must_use]
+        pub fn verif_handles(&self) -> usize {
+            Arc::strong_count(&self.circ)
+        }
+    }
+    impl<T> NCReadStream<T> {
+        /// Identity (address of the shared queue) in hook events.
+        #[must_use]
+        pub fn verif_id(&self) -> usize {
+            Arc::as_ptr(&self.q) as *const u8 as usize
+        }
+        /// Number of handles on the queue.
+        #[must_use]
+        pub fn verif_handles(&self) -> usize {
+            Arc::strong_count(&self.q)
+        }
+        pub(super) fn verif_yield(&self, site: crate::verif::Site) {
+            crate::verif::yield_point(site, 0, self.verif_id());
+        }
+    }
+    impl<T> NCWriteStream<T> {
+        /// Identity (address of the shared queue) in hook events.
+        #[must_use]
+        pub fn verif_id(&self) -> usize {
+            Arc::as_ptr(&self.q) as *const u8 as usize
+        }
+        /// Number of handles on the queue.
+        #[must_use]
+        pub fn verif_handles(&self) -> usize {
+            Arc::strong_count(&self.q)
+        }
     }
 }
